@@ -117,13 +117,23 @@ def run(R, tier, rng):
         def vl2(big=big, dts=dts):
             return np.concatenate([VarLenArray(np.array(b, dtype=dt)) for b, dt in zip(big, dts)]).array.tolist()
         add("varlen " + show(big) + " @mixed-dtypes", guarded(vl2), "varlen/mixed-dtypes", len(big) >= 2, f"np.concatenate([VarLenArray(np.array(b, dtype=dt)) for b, dt in zip({big}, {dts})])", post="single")
+        w0 = rng.randint(1, 6)
+        def vl4(blocks=blocks, w0=w0):
+            arrs = [VarLenArray(np.array(b, dtype=int)) for b in blocks]
+            arrs.insert(len(arrs) // 2, VarLenArray(np.zeros((0, w0), dtype=int)))
+            return np.concatenate(arrs).array.tolist()
+        zb = blocks[:len(blocks) // 2] + [[[0] * w0]] + blocks[len(blocks) // 2:]        # the model sees a one-row block of that width, dropped again below
+        add("varlen " + show(zb) + " @zero-row-block", guarded(vl4), "varlen/zero-row-block", True, f"np.concatenate([... {blocks} with a (0,{w0}) block in the middle])", post=("drop-row", sum(len(b) for b in blocks[:len(blocks) // 2])))
         if len(blocks) >= 2:
             def vl3(blocks=blocks):
                 return np.concatenate([VarLenArray(np.array(b, dtype=int)) for b in blocks] + [VarLenArray(np.zeros((2, 0), dtype=int))]).array.tolist()
             add("varlen " + show(blocks + [[[], []]]) + " @width0", guarded(vl3), "varlen/width0", True, f"np.concatenate([... {blocks}, VarLenArray(np.zeros((2, 0)))])", post="single")
     out = oracle([c[0].split(" @")[0] for c in cases])
     for (line, impl, kind, nt, py, post), o in zip(cases, out):
-        if post == "single":
+        if isinstance(post, tuple) and post[0] == "drop-row":
+            m = s = (vlib.parse(o) if not o.startswith("ERR") else "oracle-error " + o[:80])
+            if isinstance(m, list): m = s = m[:post[1]] + m[post[1] + 1:]
+        elif post == "single":
             m = s = (vlib.parse(o) if not o.startswith("ERR") else "oracle-error " + o[:80])
         else:
             m, s = parse2(o)
